@@ -1044,12 +1044,14 @@ class FamSNM(Fam):
             o.missing_model(s['den'], model_numerator=s['num'], stabilized=s['stabilized'], bound=s['bound'], print_results=False)
 
     def gen_fit(self, rng, cfg):
-        return {'solver': rng.choice(['closed'] * 6 + ['search'])}
+        return {'solver': rng.choice(['closed'] * 5 + ['search', 'search-default'])}
 
     def do_fit(self, o, a, inp):
         if a['solver'] == 'search':
             npsi = 2 if ':' in (o._snm_ or '') else 1
             o.fit(solver='search', starting_value=inp['start'][:npsi], alpha_value=inp['alpha'][:npsi] if npsi == 2 else 0, maxiter=200)
+        elif a['solver'] == 'search-default':
+            o.fit(solver='search', maxiter=40)        # the documented default start (zeros), whatever was fitted before
         else:
             o.fit()
 
